@@ -15,6 +15,8 @@ static inline struct vx_tv vx_mk_term_value(const void* v, struct source_point s
 int g_ap_calls; const void* g_ap_f; const struct vx_sv* g_ap_sv; const void* g_ap_ret;
 static inline const void* vx_apply_ftor(const void* f, const struct vx_sv* sv) { if (g_ap_calls < 1000) g_ap_calls++; g_ap_f = f; g_ap_sv = sv; return g_ap_ret; }
 struct vx_nterm { const char* name; };
+struct vx_nterms { struct vx_nterm t[PH_NTERMS]; };
+static inline const struct vx_nterm* vx_get_nterm(const struct vx_nterms* tt, size_t k) { __CPROVER_assert(k < P_NTERMS, "VX_BOUND std::get<I> inside the nterm tuple"); return &tt->t[k]; }
 static inline const char* vx_nterm__get_name(const struct vx_nterm* n) { return n->name; }
 /* a rule object: the name of its left side, its explicit precedence, and for item I of its right side the symbol that
    make_symbol (under contract below, both overloads) yields for it */
@@ -44,3 +46,47 @@ void vx_havoc(void)
   __CPROVER_assigns(I, __CPROVER_object_upto(&gi.right_sides[Nr][0], sizeof(gi.right_sides[Nr]))) \
   __CPROVER_loop_invariant(I <= P_N && __CPROVER_forall { size_t vq_pl; (vq_pl < PH_MAXLEN) ==> (vq_pl < I ==> (gi.right_sides[Nr][vq_pl].term == r->item_sym[vq_pl].term && gi.right_sides[Nr][vq_pl].idx == r->item_sym[vq_pl].idx)) }) \
   __CPROVER_decreases(P_N - I)
+
+/* parser::term_tuple / nterm_tuple: the tuples the constructor stored (R3: members as globals) */
+struct vx_terms term_tuple; struct vx_nterms nterm_tuple;
+#define VX_TERMS_LOOP \
+  __CPROVER_assigns(I, __CPROVER_object_whole(term_names), __CPROVER_object_whole(term_ids), __CPROVER_object_whole(term_ftors), __CPROVER_object_upto(gi.term_precedences, sizeof(gi.term_precedences)), __CPROVER_object_upto(gi.term_associativities, sizeof(gi.term_associativities))) \
+  __CPROVER_loop_invariant(I <= P_TERMS && (g_k < I ==> VX_TERM_SLOT_OK(g_k)) && VX_TERM_TAIL_KEPT) \
+  __CPROVER_decreases(P_TERMS - I)
+#define VX_TERM_SLOT_OK(k) (gi.term_precedences[k] == term_tuple.t[k].precedence && gi.term_associativities[k] == term_tuple.t[k].ass && term_names[k] == term_tuple.t[k].name \
+   && term_ids[k] == term_tuple.t[k].id && term_ftors[k] == (const void*)(vx_ftor_pool + (k)))
+/* the two slots behind the user's terms (<eof>, <error_recovery_token>) are not touched */
+#define VX_TERM_TAIL_KEPT (term_names[eof_idx] == g_keep_n0 && term_names[error_recovery_token_idx] == g_keep_n1 && gi.term_precedences[eof_idx] == g_keep_p0 && gi.term_precedences[error_recovery_token_idx] == g_keep_p1)
+const char *g_keep_n0, *g_keep_n1; int g_keep_p0, g_keep_p1;
+#define VX_NTERMS_LOOP \
+  __CPROVER_assigns(I, __CPROVER_object_whole(nterm_names)) \
+  __CPROVER_loop_invariant(I <= P_NTERMS && (g_k < I ==> nterm_names[g_k] == nterm_tuple.t[g_k].name) && nterm_names[fake_root_idx] == g_keep_n0) \
+  __CPROVER_decreases(P_NTERMS - I)
+
+/* ---- order of the construction steps (each step is under contract on its own elsewhere; here they are abstract and only their order counts) ---- */
+enum { VX_S_NTERMS, VX_S_FAKE_ROOT, VX_S_TERMS, VX_S_EOF, VX_S_ERR, VX_S_RULES, VX_S_STATES, VX_S_LEXER, VX_S_SORT, VX_S_SLICES, VX_S_STORE, VX_S_N };
+unsigned g_seq, g_at[VX_S_N], g_cnt[VX_S_N];
+static inline void vx_step(int s) { if (g_seq < 1000) g_seq++; g_at[s] = g_seq; if (g_cnt[s] < 1000) g_cnt[s]++; }
+static inline void vx_store_term_tuple(void) { vx_step(VX_S_STORE); }
+static inline void vx_store_nterm_tuple(void) { vx_step(VX_S_STORE); }
+static inline void vx_store_rule_tuple(void) { vx_step(VX_S_STORE); }
+/* analyze_rule<I>: which rules were analysed, how often, and when the last one was */
+unsigned g_ar_calls, g_ar_last_at; bool g_ar_hit, g_ar_root; unsigned g_ar_hit_n;
+static inline void vx_step_analyze_rule(size_t i) { if (g_seq < 1000) g_seq++; g_ar_last_at = g_seq; if (g_ar_calls < 1000) g_ar_calls++; if (i == g_k) { g_ar_hit = 1; if (g_ar_hit_n < 1000) g_ar_hit_n++; } if (i == root_rule_idx) g_ar_root = 1; }
+#define VX_RULES_LOOP \
+  __CPROVER_assigns(I, g_seq, g_ar_calls, g_ar_last_at, g_ar_hit, g_ar_root, g_ar_hit_n) \
+  __CPROVER_loop_invariant(I <= P_RULES && g_ar_calls == I && g_seq == I && !g_ar_root && (g_k < I ? (g_ar_hit && g_ar_hit_n == 1) : (!g_ar_hit && g_ar_hit_n == 0)) && (I >= 1 ==> g_ar_last_at == I)) \
+  __CPROVER_decreases(P_RULES - I)
+
+/* ---- create_lexer: add_term_data_to_dfa(data of term I, builder on lexer_sm, index I) for every declared term, in declaration order ---- */
+bool VX_GENERATE_LEXER; enum { VX_LEXER_SM = 7 }; int g_builder_on;
+static inline void vx_builder_on(int sm) { g_builder_on = sm; }
+unsigned g_atd_calls; size16_t g_atd_last_idx; bool g_atd_hit, g_atd_ordered, g_atd_data_ok; unsigned g_atd_hit_n;
+static inline void vx_add_term_data(const struct vx_Term* t, size16_t idx) {
+  if (g_atd_calls > 0 && !(idx > g_atd_last_idx)) g_atd_ordered = 0;          /* strictly ascending indices = declaration order */
+  if (g_atd_calls < 1000) g_atd_calls++; g_atd_last_idx = idx;
+  if (idx == g_k) { g_atd_hit = 1; if (g_atd_hit_n < 1000) g_atd_hit_n++; g_atd_data_ok = (t == &term_tuple.t[g_k]) && g_builder_on == VX_LEXER_SM; } }
+#define VX_LEXER_LOOP \
+  __CPROVER_assigns(I, g_atd_calls, g_atd_last_idx, g_atd_hit, g_atd_ordered, g_atd_data_ok, g_atd_hit_n) \
+  __CPROVER_loop_invariant(I <= P_TERMS && g_atd_calls == I && g_atd_ordered && (I >= 1 ==> g_atd_last_idx == I - 1) && (g_k < I ? (g_atd_hit && g_atd_hit_n == 1 && g_atd_data_ok) : (!g_atd_hit && g_atd_hit_n == 0))) \
+  __CPROVER_decreases(P_TERMS - I)
